@@ -28,7 +28,10 @@ META = dict(
          'independently written safe list, that a rejected expression raises '
          'the configured error before any canary is touched, and that '
          'accepted expressions see no builtins and no names other than the '
-         'supplied variables.',
+         'supplied variables. Each expression is first shown to a second, '
+         'more permissive restricted evaluator in the same process (the '
+         'whitelist of the host-selection ranking evaluator): what that one '
+         'permits must not change the verdict of the strict ones.',
     note='finite family (kinds x positions): root operator in {and, or, |, '
          'none}, two operands each a leaf form or a parenthesised and/or of '
          'a leaf form with a name; the solver certifies exhaustion of this '
@@ -55,6 +58,14 @@ LEAVES = [
 SAFE = (ast.Expression, ast.Name, ast.Load, ast.BoolOp, ast.And, ast.Or,
         ast.BinOp, ast.BitOr, ast.BitAnd)
 ROOTS = ['and', 'or', '|', None]
+# the node classes cylc.flow.host_select allows in ranking expressions
+PERMISSIVE_SAFE = (
+    ast.Expression, ast.Name, ast.Load, ast.BoolOp, ast.And, ast.Or,
+    ast.BinOp, ast.operator, ast.UnaryOp, ast.unaryop, ast.Compare,
+    ast.cmpop, ast.Attribute, ast.Subscript, ast.Constant, ast.Tuple,
+    ast.Slice)
+PERMISSIVE = restricted_evaluator(
+    *PERMISSIVE_SAFE, error_class=InvalidCompletionExpression)
 
 
 class Canary:
@@ -144,6 +155,22 @@ def _check(root, k1, k2):
     generic = restricted_evaluator(
         ast.Expression, ast.Name, ast.Load, ast.BoolOp, ast.And, ast.Or,
         ast.BinOp, error_class=InvalidCompletionExpression)
+    # history independence: a more permissive evaluator (the host-selection
+    # ranking evaluator's whitelist) sees the same expression first - what it
+    # permits must not leak into the strict evaluators used afterwards
+    plog = []
+    try:
+        PERMISSIVE(src, a=Canary(plog, 'a'), b=Canary(plog, 'b'))
+        p_ok = True
+    except InvalidCompletionExpression:
+        p_ok = False
+    except Exception:
+        # accepted, then failed while evaluating (e.g. 1 | "s": constants
+        # are permitted there) - still subject to the whitelist check below
+        p_ok = True
+    if p_ok and not (tree is not None and all(
+            issubclass(c, PERMISSIVE_SAFE) for c in classes)):
+        return False
     for evaluator in (CompletionEvaluator, generic):
         log = []
         env = {'a': Canary(log, 'a'), 'b': Canary(log, 'b')}
